@@ -395,8 +395,46 @@ func (in *Interp) store(addr *value, v value) {
 		*addr = copyVal(v)
 		return
 	}
+	if in.sameScalar(addr, v) {
+		// a frozen slot is overwritten with the value it holds (under every input of this path): not a mutation
+		if in.sched != nil {
+			in.schedEvent("write", addr)
+		}
+		*addr = v
+		return
+	}
 	in.checkFrozen(addr)
 	*addr = v
+}
+
+// sameScalar: addr is a frozen scalar slot and v can only be the value it already holds. When the values can differ
+// the difference is asserted for the rest of the path's model capture (the frozen-write violation recorded next needs
+// an input on which the write changes something).
+func (in *Interp) sameScalar(addr *value, v value) bool {
+	if len(in.frozen) == 0 {
+		return false
+	}
+	if _, frozen := in.frozen[addr]; !frozen {
+		return false
+	}
+	ot, ok1 := (*addr).(*Term)
+	nt, ok2 := v.(*Term)
+	if !ok1 || !ok2 || ot.W != nt.W {
+		return false
+	}
+	diff := Not(Eq(ot, nt))
+	if diff.Const {
+		return diff.IsFalse()
+	}
+	diff = in.share(diff)
+	if r, _ := in.sol.CheckWith(diff.S); r == Unsat {
+		return true
+	}
+	// a real change is possible: explore the path on which it happens
+	if !in.branch(diff) {
+		return true
+	}
+	return false
 }
 
 func (in *Interp) checkFrozen(addr *value) {
